@@ -335,8 +335,12 @@ void h_check_root(void)
 				CHECK(p3_mark_found == 1 && p3_mark_found_blk == blk, "a newly allocated block is marked in block_found_map");
 			CHECK(p3_wni == 1 && p3_wni_ino == EXT2_ROOT_INO, "inode 2 written once");
 			CHECK(p3_wni_inode.i_mode == 040755 && p3_wni_inode.i_links_count == 2 && p3_wni_inode.i_size == IN.blocksize &&
-			      p3_wni_inode.i_block[0] == (__u32) blk && p3_wni_inode.i_flags == 0 && p3_wni_inode.i_dtime == 0,
-			      "the new root is a directory 0755 with 2 links, one block of size, i_block[0] = the block");
+			      p3_wni_inode.i_dtime == 0 &&
+			      (ext2fs_has_feature_extents(FS.super)
+			       ? (p3_wni_inode.i_flags == EXT4_EXTENTS_FL && p3_wni_inode.i_block[0] == 0 &&
+				  p3_bmap2 == 1 && p3_bmap2_ino == EXT2_ROOT_INO && p3_bmap2_blk == blk)
+			       : (p3_wni_inode.i_block[0] == (__u32) blk && p3_wni_inode.i_flags == 0 && p3_bmap2 == 0)),
+			      "the new root is a directory 0755 with 2 links, one block of size; the block is mapped through i_block[0] without, through ext2fs_bmap2 on an EXTENTS_FL inode with the extents feature");
 			CHECK(p3_wni_inode.i_block[1] == 0 && p3_wni_inode.i_block[14] == 0 && p3_wni_inode.i_size_high == 0,
 			      "no other mapping, size one block");
 			CHECK(p3_iblk_set == 1 && p3_iblk_val == 1, "i_blocks set for one block");
